@@ -95,6 +95,9 @@ func (s *Service) proxyToSingleEndpoint(ctx context.Context, w http.ResponseWrit
 	backendStart := time.Now()
 	resp, err := s.transport.RoundTrip(proxyReq)
 	stats.BackendResponseMs = time.Since(backendStart).Milliseconds()
+	if err == nil {
+		err = core.CheckBackendStatus(resp)
+	}
 
 	if err != nil {
 		// Suppress error logging for connection failures handled by retry logic
